@@ -171,7 +171,11 @@ def decide_and_report(pid, tier, seed, cfg, report, scratch):
 
 
 def write_evidence(pid, tier, seed, cfg, report, violations, known_hit):
-    obs = report['obligations']
+    # obligations that are recorded OPEN findings are reported on their own (known_open_findings) and are not part of
+    # what this run claims as proved: `obligations` counts the rest, `discharged` how many of those the verifier accepted
+    known_ids = set(o['id'] for (o, k) in known_hit)
+    obs_all = report['obligations']
+    obs = [o for o in obs_all if o['id'] not in known_ids]
     n = len(obs)
     d = sum(1 for o in obs if o['status'] == 'discharged')
     level = cfg.get('level', 'proof')
@@ -193,6 +197,7 @@ def write_evidence(pid, tier, seed, cfg, report, violations, known_hit):
         vacuity_guard=report['vacuity'],
         undecided=report['undecided'],
         known_findings_echoed=[o['id'] for (o, k) in known_hit],
+        known_open_findings=[dict(id=o['id'], status=o['status'], witness=k.get('witness', ''), note='recorded open finding: fails on the unchanged tree, echoed as KNOWN-FINDING, NOT counted in obligations/discharged') for (o, k) in known_hit],
         not_decided=cfg.get('not_decided', ''),
         exhaustive=False,
         explanation=cfg.get('explanation', ''),
